@@ -49,7 +49,7 @@ class Target:
 
     def __init__(self, id, func, setup, ensures=(), raises=(), exc_ensures=(), overrides=None, field_types=None,
                  loops=None, unroll=None, classify=None, replay=None, timeout=600, prop=None, note="",
-                 max_paths=20000, bounded=None, oblig_timeout_ms=10000, exit_hook=None, cut_at=None, start_at=None, field_invs=None, feas_timeout_ms=3000, forget_order_facts=False, loop_body=None):
+                 max_paths=20000, bounded=None, oblig_timeout_ms=10000, exit_hook=None, cut_at=None, start_at=None, field_invs=None, feas_timeout_ms=3000, forget_order_facts=False, loop_body=None, accumulate_rules=False):
         self.id = id
         self.func = func
         self.setup = setup
@@ -75,6 +75,7 @@ class Target:
         self.feas_timeout_ms = feas_timeout_ms
         self.forget_order_facts = forget_order_facts
         self.loop_body = loop_body  # (header, contained statement): verify one generic iteration
+        self.accumulate_rules = accumulate_rules
 
     def replay_refuted(self, I, env, obs, outcome):
         """native replay of the first refuted obligation of this path that has a model"""
@@ -131,6 +132,7 @@ class Target:
         def run_path(ctx):
             I = Interp(ctx, overrides=self.overrides, field_types=self.field_types, loops=self.loops, unroll=self.unroll, field_invs=self.field_invs)
             I.forget_order_facts = self.forget_order_facts
+            I.accumulate_rules = self.accumulate_rules
             I.cut_at = self.cut_at if self.start_at is None else None
             try:
                 env = self.setup(I)
